@@ -14,7 +14,8 @@
 // In every layout but the reference construction, seeded dummy allocations are also made *between construction steps* of the
 // design (perturbStep), so that nodes created within one design change their relative address order.
 // Design families: gen (harness/designgen.h recipes, optional areas/partitions) | fsm (heap-allocated state objects) |
-// ret (register / memory read port enabled by a 2..4-term conjunction that post-processing rebuilds with Conjunction::build).
+// ret (register / memory read port enabled by a 2..4-term conjunction that post-processing rebuilds with Conjunction::build) |
+// lit (literal-vs-literal comparisons with undefined bits that survive constant folding).
 #include <gatery/pch.h>
 #include "c10_alloc.h"
 #include "designgen.h"
@@ -46,7 +47,7 @@ namespace fs = std::filesystem;
 // case generation (pure function of seed, case index, nsteps — parent and children regenerate the same case)
 
 struct CaseSpec {
-	std::string family;          // gen | fsm | ret
+	std::string family;          // gen | fsm | ret | lit
 	vh::Recipe recipe;
 	vh::Decoration deco;
 	uint64_t partSeed = 0;
@@ -61,7 +62,7 @@ struct CaseSpec {
 		o << "family=" << family << " export=" << (perPartition ? "file_per_partition" : "single_file") << " tb=" << tb << " areas=" << deco.areas
 		  << " names=" << deco.names << " tool=" << tool << " partSeed=" << partSeed << " ncycles=" << ncycles;
 		if (family == "fsm") o << " fsmStates=" << fsmStates << " fsmSeed=" << fsmSeed;
-		if (family == "ret") o << " retSeed=" << retSeed;
+		if (family == "ret" || family == "lit") o << " retSeed=" << retSeed;
 		return o.str();
 	}
 };
@@ -81,6 +82,12 @@ static CaseSpec genCase(uint64_t seed, uint64_t k, uint64_t nsteps) {
 	if (k % 4 == 2) { // every fourth case (chosen by index so that the random stream of the other families is unchanged)
 		s.family = "ret";
 		s.retSeed = Rng(seed * 0x9E3779B97F4A7C15ull + k * 7919 + 1).next();
+		s.perPartition = false;
+		return s;
+	}
+	if (k % 8 == 7) { // comparisons of literals with literals that constant propagation cannot fold (undefined bits)
+		s.family = "lit";
+		s.retSeed = Rng(seed * 0x9E3779B97F4A7C15ull + k * 104729 + 5).next();
 		s.perPartition = false;
 		return s;
 	}
@@ -240,6 +247,48 @@ static vh::Built buildRet(const CaseSpec &s) {
 	return b;
 }
 
+// Family "lit": comparisons whose two operands are both literals and that survive constant folding because one side has undefined
+// bits (unassigned signal, constant with x bits, a literal compared with itself, literal on the left / right of == != < > <= >=),
+// used as IF condition, register enable, mux selector or output. Export preparation treats such comparisons specially
+// (Circuit::ensureNoLiteralComparison inserts a named helper signal).
+static vh::Built buildLit(const CaseSpec &s) {
+	vh::Built b;
+	Rng r(s.retSeed);
+	b.clock.emplace(ClockConfig{.absoluteFrequency = 100'000'000, .name = "clk", .resetType = ClockConfig::ResetType::SYNCHRONOUS,
+		.memoryResetType = ClockConfig::ResetType::NONE, .initializeRegs = true});
+	ClockScope clkScope(*b.clock);
+	size_t w = 2 + r.below(5);
+	auto addIn = [&](auto &sig, size_t width) { b.inPins.push_back(pinOf(sig)); b.inWidths.push_back(width); };
+	Bit e0 = pinIn().setName("e0"); addIn(e0, 0);
+	UInt x = pinIn(BitWidth(w)).setName("x"); addIn(x, w);
+	UInt y = pinIn(BitWidth(w)).setName("y"); addIn(y, w);
+	auto litStr = [&](bool withX) { std::string v; for (size_t i = 0; i < w; i++) v.push_back(withX && r.chance(1, 2) ? 'x' : (r.chance(1, 2) ? '1' : '0')); if (withX && v.find('x') == std::string::npos) v[r.below(w)] = 'x'; return v; };
+	size_t n = 1 + r.below(3);
+	for (size_t i = 0; i < n; i++) {
+		perturbStep();
+		Bit c;
+		unsigned form = (unsigned) r.below(6), op = (unsigned) r.below(6);
+		auto cmp = [&](const UInt &l, const UInt &rr) -> Bit {
+			switch (op) { case 0: return l == rr; case 1: return l != rr; case 2: return l < rr; case 3: return l > rr; case 4: return l <= rr; default: return l >= rr; } };
+		if (form == 0) { UInt u = BitWidth(w); c = (op & 1) ? Bit(u != r.below(size_t(1) << w)) : Bit(u == r.below(size_t(1) << w)); }   // unassigned signal vs integer literal
+		else if (form == 1) { UInt l = vh::constU(litStr(true)); UInt k = vh::constU(litStr(false)); c = cmp(l, k); }                       // undefined bits on the left
+		else if (form == 2) { UInt l = vh::constU(litStr(false)); UInt k = vh::constU(litStr(true)); c = cmp(l, k); }                       // … on the right
+		else if (form == 3) { UInt l = vh::constU(litStr(true)); c = cmp(l, l); }                                                           // a literal compared with itself
+		else if (form == 4) { UInt u = BitWidth(w); UInt k = vh::constU(litStr(false)); c = cmp(k, u); }                                    // literal on the left, unassigned on the right
+		else { UInt l = vh::constU(litStr(false)); UInt k = vh::constU(litStr(false)); c = cmp(l, k); }                                     // fully defined (folds away)
+		UInt out = x;
+		switch (r.below(5)) {
+			case 0: IF (c) out = y; break;
+			case 1: { EnableScope es(c); out = reg(y, vh::constU(std::string(w, '0'))); } break;
+			case 2: out = mux(c, {x, y}); break;
+			case 3: IF (c & e0) out = x + y; break;
+			default: { auto p = pinOut(c).setName("cmp" + std::to_string(i)); b.outPins.push_back(p.node()); b.outWidths.push_back(0); } break;
+		}
+		auto p = pinOut(out).setName("out" + std::to_string(i)); b.outPins.push_back(p.node()); b.outWidths.push_back(w);
+	}
+	return b;
+}
+
 static void markPartitions(hlim::NodeGroup *g, Rng &r, size_t &marked) {
 	for (auto &c : g->getChildren()) {
 		if (c->getGroupType() == hlim::NodeGroupType::ENTITY && r.chance(2, 3)) { c->setPartition(true); c->useComponentInstantiation(true); marked++; }
@@ -283,7 +332,7 @@ static void runVariant(const CaseSpec &s, const fs::path &dir, unsigned shuffles
 	try {
 		DesignScope design;
 		FsmHolder fh;
-		vh::Built b = s.family == "fsm" ? buildFsm(s, fh) : s.family == "ret" ? buildRet(s) : vh::build(s.recipe, s.deco);
+		vh::Built b = s.family == "fsm" ? buildFsm(s, fh) : s.family == "ret" ? buildRet(s) : s.family == "lit" ? buildLit(s) : vh::build(s.recipe, s.deco);
 		size_t marked = 0;
 		if (s.perPartition) { Rng pr(s.partSeed); markPartitions(design.getCircuit().getRootNodeGroup(), pr, marked); }
 		Rng srng(s.stimSeed);
